@@ -12,10 +12,17 @@ import time
 VERIF = os.path.dirname(os.path.dirname(os.path.abspath(__file__)))
 
 
-def run_mutants(pid, mutants, repo='/repo', tier='quick', keep=False):
+def run_mutants(pid, mutants, repo='/repo', tier='quick', keep=False, jobs=4):
     """mutants: list of dict(name, file, old, new, expect='caught'|'verified', count=1)"""
+    from concurrent.futures import ThreadPoolExecutor
+    with ThreadPoolExecutor(jobs) as ex:
+        parts = list(ex.map(lambda m: _run_one(pid, m, repo, tier), mutants))
+    return [r for p in parts for r in p]
+
+
+def _run_one(pid, m, repo, tier):
     results = []
-    for m in mutants:
+    for m in [m]:
         tmp = tempfile.mkdtemp(prefix='pyvc_mut_')
         try:
             dst = os.path.join(tmp, 'repo')
@@ -31,7 +38,7 @@ def run_mutants(pid, mutants, repo='/repo', tier='quick', keep=False):
             env = dict(os.environ)
             env['PYVC_EVIDENCE_DIR'] = os.path.join(tmp, 'evidence')
             env['PYVC_REPLAY_DIR'] = os.path.join(tmp, 'replay')
-            p = subprocess.run([os.path.join(VERIF, 'check'), pid, '--tier', tier, '--repo', dst],
+            p = subprocess.run([os.path.join(VERIF, 'check'), pid, '--tier', tier, '--repo', dst, '--procs', '8'],
                                capture_output=True, text=True, env=env, timeout=3600)
             lines = [l for l in p.stdout.split('\n') if l.startswith(('VIOLATION', 'UNDECIDED', 'CHECKER', 'OK', '  obligation'))]
             exp = m.get('expect', 'caught')
